@@ -42,6 +42,36 @@ Proof.
 Qed.
 Print Assumptions C10_functions_refine.
 
+(* match(): what the code computes for a backslash-free pattern — the pattern compiled by itself,
+   then wrapped in ^(?: )$ and searched — is true exactly when the pattern is a regular expression
+   of the dialect and the ENTIRE string matches it; search(): when some substring does; both are
+   false for a pattern that is not a regular expression (parser of the regex syntax proved stable
+   under the wrapping: parse_wrap; anchored search = whole match: search_anchored) *)
+Theorem C10_match : forall p s,
+  no_bslash p = true -> regex_result rx_model_search p s false = rx_spec_full p s.
+Proof. exact rx_model_full_ok. Qed.
+Print Assumptions C10_match.
+Theorem C10_search : forall p s,
+  no_bslash p = true -> regex_result rx_model_search p s true = rx_spec_sub p s.
+Proof. exact rx_model_sub_ok. Qed.
+Theorem C10_invalid_pattern_false : forall p s,
+  no_bslash p = true -> (forall r, re_parse p <> PValid r) ->
+  regex_result rx_model_search p s false = false /\ regex_result rx_model_search p s true = false.
+Proof.
+  intros p s H Hn. rewrite rx_model_full_ok, rx_model_sub_ok by exact H.
+  unfold rx_spec_full, rx_spec_sub. destruct (re_parse p) as [r| |]; [exfalso; apply (Hn r); reflexivity| |]; split; reflexivity.
+Qed.
+
+(* the anchoring example of the former defect D4, and the unbalanced pattern of D24 *)
+Example C10_regex_examples :
+  rx_spec_full [97; 124; 98]%N [97; 99]%N = false                 (* a|b does not match "ac" *)
+  /\ rx_spec_full [97; 124; 98]%N [98]%N = true
+  /\ rx_spec_sub [97; 124; 98]%N [120; 98; 120]%N = true          (* search finds b inside xbx *)
+  /\ regex_result rx_model_search [97; 41; 40; 63; 58; 98]%N [97; 98]%N false = false   (* a)(?:b is not a regex *)
+  /\ rx_spec_full [97; 46; 99]%N [97; 10; 99]%N = false           (* . does not match LF *)
+  /\ rx_spec_full [40; 97; 98; 41; 123; 50; 125]%N [97; 98; 97; 98]%N = true.   (* (ab){2} *)
+Proof. vm_compute. repeat split. Qed.
+
 Example C10_examples :
   rfc_length (Some (JStr [128512; 233; 97]%N)) = Some (JNum (NInt 3))
   /\ rfc_length (Some (JArr [JNull; JNull])) = Some (JNum (NInt 2))
